@@ -10,7 +10,6 @@ import (
 	"encoding/json"
 	"errors"
 	"fmt"
-	"io"
 	"math/rand"
 	"net"
 	"net/http"
@@ -28,20 +27,14 @@ import (
 	"verifharness/shot"
 
 	pkgerrors "github.com/pkg/errors"
-	"github.com/yandex/pandora/cli"
 	grpcgun "github.com/yandex/pandora/components/guns/grpc"
 	phttp "github.com/yandex/pandora/components/guns/http"
 	pbase "github.com/yandex/pandora/components/providers/base"
 	grpcammo "github.com/yandex/pandora/components/providers/grpc"
 	"github.com/yandex/pandora/core"
 	"github.com/yandex/pandora/core/aggregator/netsample"
-	"github.com/yandex/pandora/core/config"
-	"github.com/yandex/pandora/core/engine"
 	"github.com/yandex/pandora/core/warmup"
-	"github.com/yandex/pandora/lib/monitoring"
 	"go.uber.org/zap"
-	"go.uber.org/zap/zapcore"
-	"gopkg.in/yaml.v2"
 )
 
 func hx(s string) string { return hex.EncodeToString([]byte(s)) }
@@ -141,73 +134,6 @@ func sharedGrpc() string {
 
 // ---------------------------------------------------------------- engine runs, option dimensions
 
-var (
-	dbgOnce    sync.Once
-	dbgMetrics engine.Metrics
-)
-
-// runEngine runs the pool config through core/engine. dbg: the engine (and so every gun, through GunDeps.Log) gets a
-// logger that accepts debug messages (written to nowhere), which switches the guns' DebugLog paths on; otherwise
-// shot.RunEngine (nop logger).
-func runEngine(conf string, dbg bool, timeout time.Duration) shot.Result {
-	if !dbg {
-		return shot.RunEngine(conf, timeout)
-	}
-	shot.Init()
-	dbgOnce.Do(func() {
-		dbgMetrics = engine.Metrics{
-			Request:        monitoring.NewCounter("verif_c10_Requests"),
-			Response:       monitoring.NewCounter("verif_c10_Responses"),
-			InstanceStart:  monitoring.NewCounter("verif_c10_UsersStarted"),
-			InstanceFinish: monitoring.NewCounter("verif_c10_UsersFinished"),
-		}
-	})
-	mapCfg := map[string]any{}
-	if err := yaml.Unmarshal([]byte(conf), &mapCfg); err != nil {
-		return shot.Result{Class: "config:yaml"}
-	}
-	c := cli.DefaultConfig()
-	if err := config.DecodeAndValidate(mapCfg, c); err != nil {
-		return shot.Result{Class: "config:" + strings.Join(strings.Fields(err.Error()), "_")}
-	}
-	rec := &shot.Rec{}
-	for i := range c.Engine.Pools {
-		c.Engine.Pools[i].Aggregator = rec
-	}
-	log := zap.New(zapcore.NewCore(zapcore.NewJSONEncoder(zap.NewProductionEncoderConfig()), zapcore.AddSync(io.Discard), zapcore.DebugLevel))
-	eng := engine.New(log, dbgMetrics, c.Engine)
-	ctx, cancel := context.WithCancel(context.Background())
-	defer cancel()
-	done := make(chan error, 1)
-	go func() { done <- eng.Run(ctx) }()
-	class := "ok"
-	select {
-	case err := <-done:
-		if err != nil {
-			class = "err:" + strings.Join(strings.Fields(err.Error()), "_")
-			if i := strings.Index(err.Error(), "shoot panic: "); i >= 0 {
-				class = "panic:other"
-				if strings.Contains(err.Error(), "Non HTTP/2 connection established") {
-					class = "panic:not-http2"
-				}
-			}
-			if len(class) > 100 {
-				class = class[:100]
-			}
-		}
-	case <-time.After(timeout):
-		class = "hang"
-	}
-	cancel()
-	w := make(chan struct{})
-	go func() { eng.Wait(); close(w) }()
-	select {
-	case <-w:
-	case <-time.After(2 * time.Second):
-	}
-	return shot.Result{Class: class, Samples: rec.Snapshot()}
-}
-
 // gunOpts renders the option dimensions shared by all http guns (answlog, httptrace, shared client, ssl) as extra
 // keys of the gun's YAML map; they are spliced in after the `dial` key shot.HTTPGunConf always emits.
 func gunOpts(m map[string]string) string {
@@ -236,7 +162,21 @@ func spliceGunOpts(conf string, m map[string]string) string {
 
 // ---------------------------------------------------------------- k=http
 
+// genReqs: `gen=N` stands for N requests built by rule (the Lean driver builds the same list): request j carries the
+// unique tag r<j>, asks for /s<j mod 97>/t<j mod 89>/u<j> and is answered 200.
+func genReqs(n int) string {
+	var reqs []string
+	for j := 1; j <= n; j++ {
+		p := fmt.Sprintf("/s%d/t%d/u%d", j%97, j%89, j)
+		reqs = append(reqs, fmt.Sprintf("r%d,%s,%s,s200.bx1,r200", j, hx(p), hx(p)))
+	}
+	return strings.Join(reqs, ";")
+}
+
 func runHTTP(m map[string]string) string {
+	if n := atoi(m["gen"], 0); n > 0 {
+		m["reqs"] = genReqs(n)
+	}
 	var reqs []shot.HTTPReq
 	for _, r := range strings.Split(m["reqs"], ";") {
 		f := strings.Split(r, ",")
@@ -259,7 +199,7 @@ func runHTTP(m map[string]string) string {
 	}
 	inst := atoi(m["inst"], 1)
 	conf := spliceGunOpts(shot.HTTPPool(g, reqs, inst), m)
-	res := runEngine(conf, m["dbg"] == "1", 40*time.Second)
+	res := runEngineOpt(conf, optsOf(m), 40*time.Second)
 	if inst > 1 {
 		// several instances: which request got which id depends on the interleaving of the Acquire calls. Every ammo of
 		// such a case carries the unique tag r<i>; samples are printed under the REQUEST's number (from the tag) and the
@@ -323,7 +263,7 @@ func runScn(m map[string]string) string {
 	if m["gun"] == "http2/scenario" {
 		conf = strings.Replace(conf, `gun: {type: "http/scenario"`, `gun: {type: "http2/scenario"`, 1)
 	}
-	res := runEngine(spliceGunOpts(conf, m), m["dbg"] == "1", 40*time.Second)
+	res := runEngineOpt(spliceGunOpts(conf, m), optsOf(m), 40*time.Second)
 	return fmtSamples(res, false)
 }
 
@@ -337,6 +277,8 @@ func grpcReqOf(tag, kind, code string) shot.GrpcReq {
 		r.Metadata = map[string]string{"x-code": code}
 	case "hang":
 		r.Metadata = map[string]string{"x-hang": "1"}
+	case "gone":
+		r.Metadata = map[string]string{"x-gone": "1"}
 	case "nomethod":
 		r.Call = "target.TargetService.NoSuchMethod"
 	case "badpayload":
@@ -377,8 +319,9 @@ func runGrpc(m map[string]string) string {
 		}
 		reqs = append(reqs, grpcReqOf(f[0], f[1], f[2]))
 	}
-	addr := sharedGrpc()
-	res := runEngine(spliceGrpcOpts(shot.GrpcPool(addr, atoi(m["to"], 0), reqs, 1), m), m["dbg"] == "1", 40*time.Second)
+	addr, stop := grpcTargetFor(m["reqs"])
+	defer stop()
+	res := runEngineOpt(spliceGrpcOpts(shot.GrpcPool(addr, atoi(m["to"], 0), reqs, 1), m), optsOf(m), 40*time.Second)
 	return fmtSamples(res, false)
 }
 
@@ -406,8 +349,9 @@ func runGrpcScn(m map[string]string) string {
 		}
 		calls = append(calls, c)
 	}
-	addr := sharedGrpc()
-	res := runEngine(spliceGrpcOpts(shot.GrpcScenarioPool(addr, atoi(m["to"], 0), m["scn"], calls, atoi(m["n"], 1), 1), m), m["dbg"] == "1", 40*time.Second)
+	addr, stop := grpcTargetFor(m["calls"])
+	defer stop()
+	res := runEngineOpt(spliceGrpcOpts(shot.GrpcScenarioPool(addr, atoi(m["to"], 0), m["scn"], calls, atoi(m["n"], 1), 1), m), optsOf(m), 40*time.Second)
 	return fmtSamples(res, false)
 }
 
@@ -688,6 +632,10 @@ func suspicious(m map[string]string, input, obs string) bool {
 		if strings.Contains(input, ",hang,") {
 			return false
 		}
+		if strings.Contains(input, ",gone,") {
+			// the target goes away by script: 503 is what every later call must show; a 504 is the host's doing
+			return strings.Contains(obs, ":504:")
+		}
 		scripted := strings.Count(input, ",code,14") + strings.Count(input, ",code,4,") + strings.Count(input, ",code,4;")
 		if strings.HasSuffix(input, ",code,4") {
 			scripted++
@@ -720,7 +668,9 @@ func run(input string) string {
 	return obs
 }
 
-func run1(m map[string]string) string {
+func run1(m map[string]string) string { return gated(m, func() string { return run0(m) }) }
+
+func run0(m map[string]string) string {
 	switch m["k"] {
 	case "http":
 		return runHTTP(m)
@@ -759,7 +709,11 @@ func randSeg(r *rand.Rand) string {
 // randURI returns (uri as written into the ammo file, URL.Path the gun will see).
 func randURI(r *rand.Rand) (string, string) {
 	var uri string
-	switch r.Intn(12) {
+	switch r.Intn(14) {
+	case 12:
+		uri = "http://verif.example" // absolute URI without a path: URL.Path is empty
+	case 13:
+		uri = "http://verif.example/abs/" + randSeg(r) + "?x=1"
 	case 0:
 		uri = "/"
 	case 1:
@@ -913,6 +867,25 @@ func gen(r *rand.Rand, tier string) []string {
 			out = append(out, httpCase(gun, "live", r.Intn(2) == 0, 1+r.Intn(3), r.Intn(2) == 0, randDims(r, true), reqs))
 		}
 	}
+	// 1b. status codes a client accepts although no RFC defines them: 000..099 and 600..999 (three digits is all
+	// net/http asks of a status line)
+	for rep := 0; rep < pick(1, 6); rep++ {
+		for base := 0; base < 1000; base += 50 {
+			if base >= 100 && base < 600 {
+				continue
+			}
+			var reqs []string
+			for st := base; st < base+50; st++ {
+				uri, path := randURI(r)
+				reqs = append(reqs, httpReqTok(tagPool[r.Intn(len(tagPool))], uri, path, fmt.Sprintf("s%d.bx%d", st, r.Intn(20))))
+			}
+			extra := ""
+			if rep > 0 {
+				extra = randDims(r, true)
+			}
+			out = append(out, httpCase([]string{"http", "connect"}[(base/50+rep)%2], "live", r.Intn(2) == 0, 1+r.Intn(3), r.Intn(2) == 0, extra, reqs))
+		}
+	}
 	// 2. failure kinds x guns x redirecting client x option dimensions
 	for rep := 0; rep < pick(1, 12); rep++ {
 		for _, gun := range []string{"http", "connect"} {
@@ -1026,6 +999,81 @@ func gen(r *rand.Rand, tier string) []string {
 		extra := strings.TrimSpace(fmt.Sprintf("inst=%d ", inst) + randDims(r, true))
 		out = append(out, httpCase([]string{"http", "http", "connect"}[r.Intn(3)], "live", r.Intn(2) == 0, 1+r.Intn(3), false, extra, reqs))
 	}
+	// 5d. ammo tags that COLLIDE with what the gun adds: the auto-tag of the ammo's own URI, the literal __EMPTY__, a tag
+	// with the separator in it, a prefix / an extension of the auto-tag
+	for _, auto := range []bool{true, false} {
+		for _, nto := range []bool{false, true} {
+			for el := 1; el <= pick(2, 4); el++ {
+				var reqs []string
+				for _, up := range [][2]string{{"/a/b/c", "/a/b/c"}, {"/a", "/a"}, {"/", "/"}, {"?q=1", ""}, {"/x//y", "/x//y"}, {"/a/b?z=1", "/a/b"}} {
+					for _, tag := range []string{"/a", "/a/b", "/a/b/c", "/", "__EMPTY__", "a|b", "|", "/a|/a", "/x/", "/x", "t|__EMPTY__"} {
+						reqs = append(reqs, httpReqTok(tag, up[0], up[1], []string{"s200.bx1", "actclose"}[r.Intn(2)]))
+					}
+				}
+				out = append(out, httpCase("http", "live", auto, el, nto, "", reqs))
+			}
+		}
+	}
+	// 5e. the REAL phout aggregator in the loop (agg=phout): it releases every sample to netsample's pool after writing its
+	// line, so later requests of the case shoot with RECYCLED samples; outcomes alternate (failure, broken body, plain
+	// status, tagged, untagged) so that anything a recycled sample kept would show on the next line
+	mixed := []string{"s200.bx2", "actclose", "s404", "s503.bx10.c100", "s200.bx1", "actreset", "s201.bx3", "s500.bx64.actmidreset", "s200", "actgarbage"}
+	for i := 0; i < pick(4, 160); i++ {
+		var reqs []string
+		n := 30 + r.Intn(30)
+		multi := i%4 == 3
+		for j := 1; j <= n; j++ {
+			uri, path := randURI(r)
+			tag := tagPool[r.Intn(len(tagPool))]
+			if multi {
+				tag = fmt.Sprintf("r%d", j)
+			}
+			reqs = append(reqs, httpReqTok(tag, uri, path, mixed[r.Intn(len(mixed))]))
+		}
+		extra := "agg=phout"
+		if multi {
+			extra = fmt.Sprintf("inst=%d agg=phout", []int{2, 4, 16}[r.Intn(3)])
+		}
+		if i%2 == 1 {
+			extra = strings.TrimSpace(extra + " " + randDims(r, true))
+		}
+		out = append(out, httpCase([]string{"http", "connect"}[i%2], "live", r.Intn(2) == 0, 1+r.Intn(3), multi || r.Intn(2) == 0, extra, reqs))
+	}
+	for i := 0; i < pick(3, 120); i++ {
+		k := 2 + r.Intn(3)
+		var steps []string
+		for j := 0; j < k; j++ {
+			script, pp := "s200.bjson", "-"
+			if j == k-1 {
+				// the last step fails in two shots out of three: reportErr's sample follows plain ones and is followed by them
+				switch r.Intn(6) {
+				case 0:
+					script = "actclose"
+				case 1:
+					script, pp = "s500.bx1", "as200"
+				case 2:
+					pp = "tpl"
+				case 3:
+					script = "s200.bx40.actmidclose"
+				}
+			} else if r.Intn(3) == 0 {
+				script = fmt.Sprintf("s%d.bx3", 200+r.Intn(400))
+			}
+			sc, _ := shot.ParseScript(script)
+			steps = append(steps, fmt.Sprintf("st%d,%s,%s,%s,%s", j, hx(fmt.Sprintf("/p/%d", j)), script, sc.Truth(), pp))
+		}
+		out = append(out, fmt.Sprintf("k=scn scn=ph%d n=%d agg=phout steps=%s", i%3, 3+r.Intn(6), strings.Join(steps, ";")))
+	}
+	// 5f. MANY requests from many concurrently shooting instances with auto-tag on (`gen=N`: the requests are built by
+	// rule, every one with its own tag and its own path): whatever the guns share (clients, caches) is used by all
+	// instances at once, and every sample must still carry the tag of ITS request
+	for i := 0; i < pick(2, 8); i++ {
+		extra := fmt.Sprintf("inst=%d gen=%d", []int{16, 32, 8, 64}[i%4], pick(1500, 3000))
+		if i%4 == 3 {
+			extra += " agg=phout"
+		}
+		out = append(out, fmt.Sprintf("k=http gun=%s tgt=live auto=1 el=%d nto=0 %s", []string{"http", "connect"}[i%2], 1+i%3, extra))
+	}
 	// 6. http scenarios (plain and over HTTP/2)
 	nScn := pick(30, 24000)
 	for i := 0; i < nScn; i++ {
@@ -1117,6 +1165,69 @@ func gen(r *rand.Rand, tier string) []string {
 		}
 		out = append(out, "k=grpc"+opts+" reqs="+strings.Join(reqs, ";"))
 	}
+	// 7b. the same through the real phout aggregator; and a target that GOES AWAY in the middle of the run (`gone`): the
+	// call in flight and every later call that is made end with the client-side status Unavailable, requests that are
+	// never sent (unknown method, bad payload) keep their codes
+	for i := 0; i < pick(2, 40); i++ {
+		var reqs []string
+		for j := 0; j < pick(24, 60); j++ {
+			kind := []string{"ok", "code", "code", "code", "nomethod", "badpayload"}[r.Intn(6)]
+			reqs = append(reqs, fmt.Sprintf("%s,%s,%d", tagPool[r.Intn(len(tagPool))], kind, 1+r.Intn(20)))
+		}
+		out = append(out, "k=grpc agg=phout reqs="+strings.Join(reqs, ";"))
+	}
+	goneCode := func() int { return []int{1, 2, 3, 5, 7, 9, 13, 14, 16, 17}[r.Intn(10)] } // not 4: a 504 in such a case is the host's doing
+	for i := 0; i < pick(3, 60); i++ {
+		var reqs []string
+		n := 4 + r.Intn(10)
+		at := r.Intn(n)
+		for j := 0; j < n; j++ {
+			kind := []string{"ok", "ok", "code", "code", "nomethod", "badpayload"}[r.Intn(6)]
+			if j == at {
+				kind = "gone"
+			}
+			reqs = append(reqs, fmt.Sprintf("%s,%s,%d", tagPool[r.Intn(len(tagPool))], kind, goneCode()))
+		}
+		opts := ""
+		if i%3 == 2 {
+			opts = []string{" alog=all", " shc=2", " dbg=1", " agg=phout"}[r.Intn(4)]
+		}
+		out = append(out, "k=grpc"+opts+" reqs="+strings.Join(reqs, ";"))
+	}
+	for i := 0; i < pick(3, 60); i++ {
+		k := 2 + r.Intn(3)
+		at := r.Intn(k)
+		var calls []string
+		for j := 0; j < k; j++ {
+			kind := []string{"ok", "ok", "ok", "code", "nomethod", "badpayload"}[r.Intn(6)]
+			if j == at {
+				kind = "gone"
+			} else if j < at {
+				kind = "ok" // the scenario must reach the call during which the target goes away
+			}
+			pp := "-"
+			if r.Intn(4) == 0 {
+				pp = fmt.Sprintf("as%d", []int{200, 503}[r.Intn(2)])
+			}
+			calls = append(calls, fmt.Sprintf("c%d,tg%d,%s,%d,%s", j, j, kind, goneCode(), pp))
+		}
+		opts := ""
+		if i%3 == 2 {
+			opts = []string{" alog=all", " dbg=1", " agg=phout"}[r.Intn(3)]
+		}
+		out = append(out, fmt.Sprintf("k=grpcscn%s scn=gn%d n=%d calls=%s", opts, i%2, 2+r.Intn(3), strings.Join(calls, ";")))
+	}
+	for i := 0; i < pick(2, 40); i++ {
+		var calls []string
+		for j := 0; j < 3; j++ {
+			kind := []string{"ok", "ok", "code", "badpayload"}[r.Intn(4)]
+			if j < 2 {
+				kind = "ok"
+			}
+			calls = append(calls, fmt.Sprintf("c%d,tg%d,%s,%d,-", j, j, kind, 1+r.Intn(16)))
+		}
+		out = append(out, fmt.Sprintf("k=grpcscn agg=phout scn=gp n=%d calls=%s", 4+r.Intn(5), strings.Join(calls, ";")))
+	}
 	// 8. gRPC scenarios
 	nGS := pick(12, 1500)
 	for i := 0; i < nGS; i++ {
@@ -1207,8 +1318,14 @@ func class(input, obs string) string {
 		if m["inst"] != "" {
 			c += ":multi"
 		}
+		if m["gen"] != "" {
+			c += ":stress"
+		}
 		if m["pan"] == "1" {
 			c += ":fatal"
+		}
+		if m["agg"] == "phout" {
+			c += ":phout"
 		}
 		if m["alog"] != "" || m["trace"] != "" || m["dump"] != "" || m["dbg"] != "" || m["shc"] != "" {
 			c += ":opts"
@@ -1216,6 +1333,12 @@ func class(input, obs string) string {
 	case "scn", "grpc", "grpcscn":
 		if m["gun"] != "" {
 			c += ":" + m["gun"]
+		}
+		if m["agg"] == "phout" {
+			c += ":phout"
+		}
+		if strings.Contains(input, ",gone,") {
+			c += ":target-gone"
 		}
 		if m["alog"] != "" || m["trace"] != "" || m["dump"] != "" || m["dbg"] != "" || m["shc"] != "" {
 			c += ":opts"
